@@ -51,25 +51,27 @@ func pick[T any](r *hx.Rng, xs ...T) T { return xs[r.Intn(len(xs))] }
 
 // SpecKnobs lets a scenario bias the random preset.
 type SpecKnobs struct {
-	Epochs             int    // planned chain length in epochs: fork epochs are drawn so that they fall inside
-	PlainMinimal       bool   // minimal preset untouched except fork epochs
-	AllForksInside     bool   // force all four fork epochs < Epochs-1
-	CommitteeDrop      bool   // MAX_COMMITTEES_PER_SLOT 4, MAX_SEED_LOOKAHEAD 1: with an exact genesis active count the committee count drops inside phase0
-	Phase0Leak         bool   // MIN_EPOCHS_TO_INACTIVITY_PENALTY 1 (a leak epoch is processed by phase0 when altair comes at epoch 4)
-	LowBalances        bool   // SYNC_COMMITTEE_SIZE 32, EJECTION_BALANCE 8 ETH, inactivity quotients 6/9/12: one phase0 leak epoch takes a third of the balance of the validators that missed the target
-	WideForks          bool   // fork epochs anywhere in 1..epochs-4 instead of 1..6
-	ForkBias           string // "late": forks at the last four possible epochs; "early": 1,2,3,4
-	OddVectors         bool   // non-power-of-two EPOCHS_PER_HISTORICAL_VECTOR / EPOCHS_PER_SLASHINGS_VECTOR / SLOTS_PER_HISTORICAL_ROOT
-	PenaltyWhileActive bool   // EPOCHS_PER_SLASHINGS_VECTOR 8, delay 1, MAX_SEED_LOOKAHEAD 4, multipliers 3: the correlation penalty hits validators that stay active
-	ShortSlashings     bool   // EPOCHS_PER_SLASHINGS_VECTOR 4, MIN_VALIDATOR_WITHDRAWABILITY_DELAY 1: slashed validators become withdrawable within the chain
-	FastEth1           bool   // EPOCHS_PER_ETH1_VOTING_PERIOD 1
-	HugeRewards        bool   // BASE_REWARD_FACTOR 2^14..2^16: a missed epoch costs a noticeable share of an increment
-	StrongPenalty      bool   // large base reward / small inactivity quotients so balances move fast
-	EjectionNear       bool   // EJECTION_BALANCE one or two increments below MAX_EFFECTIVE_BALANCE
-	SmallChurn         bool
-	ShortLeak          bool
-	SmallSweep         bool
-	SyncAtFork         bool // make a sync committee period boundary coincide with a fork epoch
+	Epochs               int    // planned chain length in epochs: fork epochs are drawn so that they fall inside
+	PlainMinimal         bool   // minimal preset untouched except fork epochs
+	AllForksInside       bool   // force all four fork epochs < Epochs-1
+	CommitteeDrop        bool   // MAX_COMMITTEES_PER_SLOT 4, MAX_SEED_LOOKAHEAD 1: with an exact genesis active count the committee count drops inside phase0
+	Phase0Leak           bool   // MIN_EPOCHS_TO_INACTIVITY_PENALTY 1 (a leak epoch is processed by phase0 when altair comes at epoch 4)
+	SyncSeat             bool   // EPOCHS_PER_SYNC_COMMITTEE_PERIOD 4, SHARD_COMMITTEE_PERIOD 1, MAX_SEED_LOOKAHEAD 1, withdrawability delay 1, sweep 8
+	TwoAttesterSlashings bool   // MAX_ATTESTER_SLASHINGS 2
+	LowBalances          bool   // SYNC_COMMITTEE_SIZE 32, EJECTION_BALANCE 8 ETH, inactivity quotients 6/9/12: one phase0 leak epoch takes a third of the balance of the validators that missed the target
+	WideForks            bool   // fork epochs anywhere in 1..epochs-4 instead of 1..6
+	ForkBias             string // "late": forks at the last four possible epochs; "early": 1,2,3,4
+	OddVectors           bool   // non-power-of-two EPOCHS_PER_HISTORICAL_VECTOR / EPOCHS_PER_SLASHINGS_VECTOR / SLOTS_PER_HISTORICAL_ROOT
+	PenaltyWhileActive   bool   // EPOCHS_PER_SLASHINGS_VECTOR 8, delay 1, MAX_SEED_LOOKAHEAD 4, multipliers 3: the correlation penalty hits validators that stay active
+	ShortSlashings       bool   // EPOCHS_PER_SLASHINGS_VECTOR 4, MIN_VALIDATOR_WITHDRAWABILITY_DELAY 1: slashed validators become withdrawable within the chain
+	FastEth1             bool   // EPOCHS_PER_ETH1_VOTING_PERIOD 1
+	HugeRewards          bool   // BASE_REWARD_FACTOR 2^14..2^16: a missed epoch costs a noticeable share of an increment
+	StrongPenalty        bool   // large base reward / small inactivity quotients so balances move fast
+	EjectionNear         bool   // EJECTION_BALANCE one or two increments below MAX_EFFECTIVE_BALANCE
+	SmallChurn           bool
+	ShortLeak            bool
+	SmallSweep           bool
+	SyncAtFork           bool // make a sync committee period boundary coincide with a fork epoch
 }
 
 // ForkSchedule draws sorted fork epochs. Later forks may be equal to earlier ones or FAR_FUTURE.
@@ -108,7 +110,7 @@ func ForkSchedule(r *hx.Rng, k SpecKnobs) [4]uint64 {
 	}
 	if k.ForkBias == "phase0long" && k.Epochs >= 9 {
 		// four phase0 epochs, altair at a multiple of both possible sync-committee periods (2 and 4)
-		return [4]uint64{4, 5, 6, 7}
+		return [4]uint64{4, 5, 6, 8} // capella covers the transition into epoch 8 (a boundary of period 2 and 4)
 	}
 	if k.ForkBias == "late" && hi >= 5 {
 		return [4]uint64{uint64(hi - 3), uint64(hi - 2), uint64(hi - 1), uint64(hi)}
@@ -228,6 +230,17 @@ func TinySpec(r *hx.Rng, k SpecKnobs) *common.Spec {
 		sp.INACTIVITY_PENALTY_QUOTIENT_BELLATRIX = q * 2
 		sp.INACTIVITY_SCORE_BIAS = view.Uint64View(pick(r, 1, 4))
 		sp.INACTIVITY_SCORE_RECOVERY_RATE = view.Uint64View(pick(r, 1, 16))
+	}
+	if k.SyncSeat {
+		sp.EPOCHS_PER_SYNC_COMMITTEE_PERIOD = 4
+		sp.SHARD_COMMITTEE_PERIOD = 1
+		sp.MAX_SEED_LOOKAHEAD = 1
+		sp.MIN_VALIDATOR_WITHDRAWABILITY_DELAY = 1
+		sp.MAX_VALIDATORS_PER_WITHDRAWALS_SWEEP = 8
+		sp.MAX_WITHDRAWALS_PER_PAYLOAD = 4
+	}
+	if k.TwoAttesterSlashings {
+		sp.MAX_ATTESTER_SLASHINGS = 2
 	}
 	if k.LowBalances {
 		sp.SYNC_COMMITTEE_SIZE = 32
